@@ -58,7 +58,7 @@ def check_c01(ck, tier, replay=None):
     ck.assumptions += ['doubles as exact reals; norm() through the canonical sqrt symbol', 'mapping state built through the real AddElem with arbitrary weights (arbitrary-state pattern); beads through the real Bead constructor and setters',
                        'the message formatting on the rejection path (Eigen operator<<, boost::lexical_cast<string>) is a sink; the throw is executed', 'presence flags are uniform over the parents (all have positions or none, etc.)',
                        'compositional: inside Apply the periodic BCShortestConnection and getShortestBoxDimension are contract stubs (fresh symbols, call arguments recorded and checked); that they return the minimum image / the shortest box height, and that the image is invariant under whole box vectors, is decided on the same real functions under C02. Open box: the real OpenBox routine is executed.',
-                       'Map_Sphere::Initialize (Property/Tokenizer parsing of weights and d) is not executed symbolically: the normalisation clause is outside this check']
+                       'Map_Sphere::Initialize: the real Property/Tokenizer/normalisation code runs on option text made of placeholder tokens; only tools::lexical_cast<double> is a stub returning one symbolic real per token']
     validate(ck, mod)
     parsed = {}; found = []
     NMAX = 3 if tier == 'quick' else 4
@@ -141,6 +141,7 @@ def check_c01(ck, tier, replay=None):
     ck.add_witness('TopologyMap::Apply: %d paths (old/new box kinds)' % len(rt), len(rt) >= 9)
     q = [(list(it.pc), [z3.Or([o[i] != nb[i] for i in range(9)] + [o[9] != o[10], o[11] != 7, o[12] != tm_])]) for it, o in rt]
     agg(ck, 'TopologyMap::Apply: after Apply the CG topology has exactly the box matrix, box kind, step and time of the atomistic frame, for every previous CG box', q, TO, found, 'topologymap box')
+    init_weights(ck, mod, tier, parsed, found)
     c02_inside(ck, tier, found)
     ck.bounds.update({'parents': 'n = 1..%d' % NMAX, 'weights/masses/coordinates': 'all reals', 'boxes': 'open (real routine); orthorhombic and triclinic class instances with the box routines by contract (any box)', 'flag combinations': 'all 8 for the open box; (pos), (pos,vel,F), (vel,F) for periodic boxes in the quick tier'})
     for tag, name, mdl in found:
@@ -188,15 +189,60 @@ def agg(ck, name, queries, TO, found, tag):
     ck.obligation('%s (%d path queries)' % (name, len(jobs)), st, sum(v[1] for v in out.values()), True, {'model': out[bad[0]][2]} if bad else None)
     if st == 'sat': found.append((tag, name, out[[i for i in bad if out[i][0] == 'sat'][0]][2]))
 
-def init_weights(ck, mod, tier, parsed, found):
-    """Map_Sphere::Initialize: stored weights = w_i / sum w, force weights = (d_i/sum d)/(w_i/sum w) (1 when no d is given)"""
-    ck.notes.append('Map_Sphere::Initialize (option parsing through tools::Property / Tokenizer) is not executed symbolically in this round; the normalisation clause is covered only through the arbitrary-state harness (weights given to AddElem)')
+def init_weights(ck, mod, tier, parsed, found, TO=60):
+    """Map_Sphere::Initialize: every listed parent is stored, in order, with weight w_i / sum w and force weight
+    (d_i / sum d) / (w_i / sum w) (1 when no d is given, 0 for a zero weight); a zero weight with a non-zero d is rejected.
+    The real tokenising/normalisation runs; only the text -> double conversion is a stub (placeholder tokens)."""
+    import re
+    for n, has_d in ((2, 0), (3, 0), (2, 1), (3, 1)) if tier == 'quick' else ((2, 0), (3, 0), (4, 0), (2, 1), (3, 1), (4, 1)):
+        w = [z3.Real('w%d' % i) for i in range(n)]; d = [z3.Real('d%d' % i) for i in range(n)]
+        syms = {('@%d' % i).encode(): w[i] for i in range(n)}; syms.update({('@%d' % (10 + i)).encode(): d[i] for i in range(n)})
+        M = map_models()
+        def lex(it, a):
+            arg = a[0]; txt = models.sget_bytes(it, arg)
+            if txt not in syms: raise symx.Unsupported('unexpected numeric token %r' % txt)
+            return syms[txt]
+        M['re:^@_ZN5votca5tools12lexical_castIdNSt7__cxx1112basic_stringIcSt11char_traitsIcESaIcEEEEET_RKT0_RKS7_'] = lex
+        M['@isspace'] = lambda it, a: int(chr(a[0] & 0xff).isspace()); M['@ispunct'] = lambda it, a: 0
+        def as_string(it, a):
+            models.sinit(it, a[0], b'name'); return None       # Property::as<std::string>() only feeds error messages here: formatting sink
+        M['re:^@_ZNK5votca5tools8Property2asINSt7__cxx1112basic_stringIcSt11char_traitsIcESaIcEEEEET_v'] = as_string
+        wt = ' '.join('@%d' % i for i in range(n)); dt = ' '.join('@%d' % (10 + i) for i in range(n))
+        def body(it):
+            it.assume(sum(w[1:], w[0]) != 0)
+            if has_d: it.assume(sum(d[1:], d[0]) != 0)
+            pw = it.alloc(len(wt) + 1, 'wt'); pd = it.alloc(len(dt) + 1, 'dt')
+            for i, c in enumerate(wt.encode() + b'\0'): it.store(Ptr(pw.obj, i), c, 1)
+            for i, c in enumerate(dt.encode() + b'\0'): it.store(Ptr(pd.obj, i), c, 1)
+            out = alloc_doubles(it, 'out', [F(0)] * (2 * n)); order = it.alloc(8 * n, 'order')
+            k = symx.sgn64(it.call('@h_init', [n, pw, pd, has_d, out, order]))
+            if k < 0: return k, [], []
+            return k, read_doubles(it, out, 2 * k), [symx.sgn64(it.load(Ptr(order.obj, 8 * i), 8)) for i in range(k)]
+        res, st = explore(mod, M, body, parsed=parsed, max_paths=3000); ck.stubs |= st['models_used'] | {'tools::lexical_cast<double>(string): placeholder token -> symbolic real'}
+        label = 'Initialize(n=%d, %s)' % (n, 'weights and d' if has_d else 'weights only')
+        ck.add_witness('%s: %d paths, accepting and (with d) rejecting' % (label, len(res)), any(r[1][0] >= 0 for r in res) and (not has_d or any(r[1][0] < 0 for r in res)))
+        S = sum(w[1:], w[0]); D = sum(d[1:], d[0])
+        q = []; qr = []
+        for it, (k, o, order) in res:
+            pc = list(it.pc)
+            if k < 0:
+                qr.append((pc, [z3.Not(z3.Or([z3.And(w[i] == 0, d[i] != 0) for i in range(n)]) if has_d else z3.BoolVal(False))])); continue
+            goal = [z3.BoolVal(k == n and order == list(range(n)))]
+            if k == n:
+                for i in range(n):
+                    goal.append(o[2 * i] * S == w[i])
+                    fw_expected = z3.If(w[i] == 0, z3.RealVal(0), (d[i] / D) / (w[i] / S)) if has_d else z3.If(w[i] == 0, z3.RealVal(0), z3.RealVal(1))
+                    goal.append(o[2 * i + 1] == fw_expected)
+                if has_d: goal.append(z3.Not(z3.Or([z3.And(w[i] == 0, d[i] != 0) for i in range(n)])))
+            q.append((pc, [z3.Not(z3.And(goal))]))
+        agg(ck, '%s: all parents stored in order with weight w_i/sum(w) and force weight (d_i/sum d)/(w_i/sum w) (plain sum without d; zero weights kept with force weight 0)' % label, q, TO, found, label)
+        if qr: agg(ck, '%s: rejected only when some parent has zero weight but a non-zero d' % label, qr, TO, found, label + ' rejection')
 
 def validate(ck, mod):
     rnd = random.Random(common.SEED); parsed = {}
     src = os.path.join(common.workdir(), 'c01drv.cc')
     open(src, 'w').write('#include "%s"\n#include <cstdio>\nint main(){ long n; while(scanf("%%ld",&n)==1){ double w[8],fw[8],m[8],p[24],v[24],f[24],bx[9],out[14]={0}; long flags,bt; for(long i=0;i<n;i++) scanf("%%la",&w[i]); for(long i=0;i<n;i++) scanf("%%la",&fw[i]); for(long i=0;i<n;i++) scanf("%%la",&m[i]); for(long i=0;i<3*n;i++) scanf("%%la",&p[i]); for(long i=0;i<3*n;i++) scanf("%%la",&v[i]); for(long i=0;i<3*n;i++) scanf("%%la",&f[i]); scanf("%%ld",&flags); for(int i=0;i<9;i++) scanf("%%la",&bx[i]); scanf("%%ld",&bt); long rc=h_apply(n,w,fw,m,p,v,f,flags,bx,bt,out); printf("\\nRES %%ld",rc); for(int i=0;i<14;i++) printf(" %%a",out[i]); printf("\\n"); } }\n' % common.harness_path(HARNESS))
-    binn = common.native_build([src], 'C01_native', extra=['-I' + common.REPO], cxx=common.CLANG, libs=common.votca_libs())
+    binn = common.native_build([src], 'C01_native', extra=['-I' + common.REPO], cxx=common.CLANG, libs=common.votca_libs() + ['-lexpat'])
     lines = []
     for _ in range(40):
         n = rnd.randint(1, 4); bt = rnd.choice([1, 2, 3]); flags = rnd.choice([1, 3, 5, 7, 2, 0])
@@ -244,7 +290,7 @@ def replay_native(meta):
     else: bx = [0.0] * 9; bt = 3
     src = os.path.join(common.workdir(), 'c01rep.cc')
     open(src, 'w').write('#include "%s"\n#include <cstdio>\n#include <cstdlib>\nint main(int c,char**a){ long n=atol(a[1]); double v[200]; for(int i=0;i<c-2;i++) v[i]=atof(a[i+2]); double* w=v; double* fw=v+n; double* m=v+2*n; double* p=v+3*n; double* ve=v+6*n; double* f=v+9*n; long flags=(long)v[12*n]; double* bx=v+12*n+1; long bt=(long)v[12*n+10]; double out[14]={0}; long rc=h_apply(n,w,fw,m,p,ve,f,flags,bx,bt,out); printf("\\nRES %%ld",rc); for(int i=0;i<14;i++) printf(" %%.17g",out[i]); printf("\\n"); }\n' % common.harness_path(HARNESS))
-    b = common.native_build([src], 'C01_rep', extra=['-I' + common.REPO], libs=common.votca_libs())
+    b = common.native_build([src], 'C01_rep', extra=['-I' + common.REPO], libs=common.votca_libs() + ['-lexpat'])
     args = [str(n)] + [repr(float(x)) for x in w + fw + ms + pos + vel + frc] + [str(flags)] + [repr(float(x)) for x in bx] + [str(bt)]
     rc, so, se = common.run_native(b, args=args)
     t = [l for l in so.split('\n') if l.startswith('RES ')][0].split()[1:]; rcn = int(t[0]); o = [float(x) for x in t[1:]]
